@@ -6,6 +6,11 @@
                           setters of DerivedValue / RepeatedlyMeasuredValue (the uncertainty is kept)
   qexpy/data/datasets.py  _get_error_array_helper (one array per branch, the final sign test)
 
+  qexpy/data/datasets.py  XYDataSet.__init__: both (data, uncertainty) pairs go through
+                          _get_error_array_helper BEFORE the first __wrap_data call, for sides that
+                          are existing arrays (whose elements __wrap_data overwrites) and for sides
+                          that are plain lists (refused only when wrapped, i.e. after the other side)
+
 Structural checks (no Lean counterpart, break the tie): in every setter the type test comes first,
 the sign test second and both precede the first assignment to `self` (incl. the cast
 `self.__class__ = MeasuredValue`: validate before cast); the branches of the array helper are
@@ -284,9 +289,59 @@ def gen_helper(out, broken):
         raise Unsupported("{}: the helper does not return the array it tested".format(where(body[2], DS)))
 
 
+def gen_xy(out, broken):
+    """XYDataSet.__init__ validates the whole request before anything is changed"""
+    tree = ast.parse(src(DS))
+    cls = classes_of(tree).get("XYDataSet")
+    if cls is None:
+        raise Unsupported("{}: XYDataSet missing".format(DS))
+    fn = method(cls, "__init__", DS)
+    body = strip_doc(fn.body)
+    first_wrap = next((k for k, st in enumerate(body) if "__wrap_data(" in norm(st)), None)
+    if first_wrap is None:
+        raise Unsupported("{}: XYDataSet.__init__ does not call __wrap_data".format(where(fn, DS)))
+    existing = plain = False
+    for st in body[:first_wrap]:
+        if not isinstance(st, ast.For):
+            continue
+        names = {n.id for n in ast.walk(st.iter) if isinstance(n, ast.Name)}
+        if not {"xerr", "yerr"} <= names:
+            continue
+        bound = {n.id for n in ast.walk(st.target) if isinstance(n, ast.Name)}
+
+        def visit(stmts, under_array_test):
+            nonlocal existing, plain
+            for x in stmts:
+                if isinstance(x, ast.If):
+                    t = norm(x.test)
+                    pos = "isinstance(" in t and "ExperimentalValueArray" in t and not t.startswith("not ")
+                    visit(x.body, under_array_test or pos)
+                    visit(x.orelse, under_array_test)
+                    continue
+                for c in ast.walk(x):
+                    if isinstance(c, ast.Call) and dotted(c.func) == "_get_error_array_helper" and \
+                            len(c.args) == 3 and isinstance(c.args[1], ast.Name) and \
+                            c.args[1].id in bound and isinstance(c.args[2], ast.Constant) and \
+                            c.args[2].value is None:
+                        existing = existing or under_array_test or not skips_arrays
+                        plain = plain or not under_array_test
+        # `if isinstance(data, ExperimentalValueArray): continue` at the top of the loop body
+        skips_arrays = any(isinstance(x, ast.If) and "ExperimentalValueArray" in norm(x.test)
+                           and len(x.body) == 1 and isinstance(x.body[0], ast.Continue)
+                           for x in st.body)
+        visit(st.body, False)
+    if not existing:
+        broken.append("{}: XYDataSet.__init__ does not pass (xdata, xerr) and (ydata, yerr) of EXISTING "
+                      "arrays through _get_error_array_helper before the first __wrap_data call (a "
+                      "refused request would leave the other array overwritten)".format(where(fn, DS)))
+    if not plain:
+        broken.append("{}: XYDataSet.__init__ does not check the uncertainties of a plain-list side "
+                      "before the first __wrap_data call".format(where(fn, DS)))
+
+
 def gen():
     broken, out = [], {}
-    for part in (gen_data, gen_helper):
+    for part in (gen_data, gen_helper, gen_xy):
         try:
             part(out, broken)
         except Unsupported as e:
